@@ -162,7 +162,7 @@ func runFlvWire(c *Ctx, ws bool, seed uint64, idx int) {
 		}()
 	}
 	defer closeClient()
-	if !Eventually(10*time.Second, func() bool { return s.ConsumerCount() == 1 }) {
+	if !Eventually(waitBudget, func() bool { return s.ConsumerCount() == 1 }) {
 		fail("flvwire-not-attached", "no consumer attached after the request was accepted", "one FLV consumer")
 		return
 	}
@@ -206,7 +206,7 @@ func runFlvWire(c *Ctx, ws bool, seed uint64, idx int) {
 	}
 	c.Eval(key, true)
 	// all tags consumed, then the stream ends
-	Eventually(10*time.Second, func() bool {
+	Eventually(waitBudget, func() bool {
 		_, flvT, _, _ := s.VerifTables()
 		for _, x := range flvT {
 			if x.QueueLen > 0 {
@@ -219,11 +219,11 @@ func runFlvWire(c *Ctx, ws bool, seed uint64, idx int) {
 	s.Close()
 	select {
 	case <-done:
-	case <-time.After(10 * time.Second):
-		fail("flvwire-not-closed", "the client connection is still open 10 s after the stream was closed", "connection closed when the stream ends")
+	case <-time.After(waitBudget):
+		fail("flvwire-not-closed", "the client connection is still open long after the stream was closed", "connection closed when the stream ends")
 		return
 	}
-	if !Eventually(10*time.Second, func() bool { return stats.FlvConns.GetSample().Active == before }) {
+	if !Eventually(waitBudget, func() bool { return stats.FlvConns.GetSample().Active == before }) {
 		fail("flvwire-counter", fmt.Sprintf("active FLV connections %d after the stream ended (was %d before the client)", stats.FlvConns.GetSample().Active, before), "back to the prior value")
 	}
 	if cc := s.ConsumerCount(); cc != 0 {
